@@ -30,10 +30,11 @@ const (
 	opChoose // data nondeterminism
 	opYield  // plain scheduling point (atomics)
 	opResume // rendezvous partner completed our op
+	opAwait  // blocked until a harness predicate holds
 )
 
 func (k opKind) String() string {
-	return [...]string{"start", "lock", "rlock", "wgwait", "chan", "choose", "yield", "resume"}[k]
+	return [...]string{"start", "lock", "rlock", "wgwait", "chan", "choose", "yield", "resume", "await"}[k]
 }
 
 type selCase struct {
@@ -62,6 +63,7 @@ type op struct {
 	cases      []*selCase
 	hasDefault bool
 	nchoose    int
+	cond       func() bool
 	// results
 	chosen int // case index / choose value; -1 default
 	recvV  interface{}
@@ -208,6 +210,13 @@ func (s *Sched) applyHB(a alt) {
 	site := hs(o.site)
 	switch o.kind {
 	case opStart, opResume:
+	case opAwait:
+		// the predicate reads state written by other threads: order after everything
+		var sum uint64
+		for _, u := range s.threads {
+			sum += u.hist
+		}
+		t.hist = mix(t.hist, 24, site, sum)
 	case opYield:
 		k := uintptr(0)
 		if o.mu != nil {
@@ -414,6 +423,10 @@ func (s *Sched) alternatives(t *Thread) []alt {
 	switch o.kind {
 	case opStart, opYield, opResume:
 		return []alt{{t: t}}
+	case opAwait:
+		if o.cond() {
+			return []alt{{t: t}}
+		}
 	case opChoose:
 		out := make([]alt, o.nchoose)
 		for i := range out {
@@ -839,4 +852,19 @@ func (s *Sched) delay(enabled []*Thread, chosen *Thread) {
 		}
 	}
 	s.queue = append(q, back...)
+}
+
+// Await blocks the calling managed thread until cond holds. cond is evaluated by the
+// scheduler while no thread runs; it must be free of scheduling points and side effects.
+// It lets a scenario say "this thread acts only once the system has reached state X"
+// without spending scheduling deviations on reaching X.
+func Await(site string, cond func() bool) {
+	t := cur()
+	if t == nil {
+		for !cond() {
+			runtime.Gosched()
+		}
+		return
+	}
+	t.point(&op{kind: opAwait, site: site, cond: cond})
 }
